@@ -11,7 +11,7 @@ use refimpl as r;
 use refimpl::{Mode, MODES};
 use serde_json::json;
 
-const RULE: &str = "EVERY context length n in 0..=N (quick N=1100, thorough N=70000, crossing 256, 512 and 65536; quick additionally samples lengths around 65536, 131072 and 196608) x 4 modes x 3 sets: signing must be Ok iff n <= 255 (and then the signature verifies with the same context and fails with a context one byte longer/shorter); verification with an n-byte context, n > 255, must be false for signatures built to alias: the crate's own signature for (ctx' = C[..n-256], M' = C[n-256..] || M), and reference-made signatures over three literal aliasing models (length byte wrapped mod 256 with the full context; context truncated to 255 bytes; length byte saturated at 255 with the full context), in pure and pre-hash modes. On 64-bit hosts also all-zero contexts of 2^24, 2^31, 2^32-1 .. 2^32+512 bytes (an untouched calloc buffer): signing must return Err and verification false in every mode, and the crate's own signature for (ctx = 0^r, M = 0^(2^32) || M0) must not verify for (ctx = 0^(2^32+r), M0). Non-trivial = distinct (set, mode, n, probe kind) evaluations.";
+const RULE: &str = "EVERY context length n in 0..=N (quick N=1100, thorough N=70000, crossing 256, 512 and 65536; quick additionally samples lengths around 65536, 131072 and 196608) x 4 modes x 3 sets: signing must be Ok iff n <= 255 (and then the signature verifies with the same context and fails with a context one byte longer/shorter); verification with an n-byte context, n > 255, must be false for signatures built to alias: the crate's own signature for (ctx' = C[..n-256], M' = C[n-256..] || M), and reference-made signatures over three literal aliasing models (length byte wrapped mod 256 with the full context; context truncated to 255 bytes; length byte saturated at 255 with the full context), in pure and pre-hash modes. Forgeries on a t1 = 0 public key that are valid under twelve wrong models of the message representative (mu = 0, H(tr), H(tr||M), header without context, length byte only, 16-bit length, ...) must be rejected with contexts of 256..65536 bytes in every mode. On 64-bit hosts also all-zero contexts of 2^24, 2^31, 2^32-1 .. 2^32+512 bytes (an untouched calloc buffer): signing must return Err and verification false in every mode, and the crate's own signature for (ctx = 0^r, M = 0^(2^32) || M0) must not verify for (ctx = 0^(2^32+r), M0). Non-trivial = distinct (set, mode, n, probe kind) evaluations.";
 
 pub fn run(ctx: &Ctx) -> StageOut {
     let mut acc = Acc::new();
@@ -184,36 +184,9 @@ fn run_set<S: PS>(ctx: &Ctx) -> Acc {
         acc.merge(a);
     }
     acc.maxi("max_ctx_len_enumerated", n_max as i64);
+    mu_model_forgeries::<S>(ctx, &mut acc);
     huge_contexts::<S>(ctx, &mut acc, &pk_b, &sk_b);
     acc
-}
-
-/// A zero-filled buffer that is never touched unless the code under test reads it (calloc hands out
-/// untouched zero pages, so 4 GiB cost nothing as long as the length check comes first).
-struct ZeroBuf {
-    ptr: *mut u8,
-    len: usize,
-}
-
-impl ZeroBuf {
-    fn new(len: usize) -> Option<ZeroBuf> {
-        let layout = std::alloc::Layout::from_size_align(len, 4096).ok()?;
-        // SAFETY: layout has a non-zero size; a null return is handled.
-        let ptr = unsafe { std::alloc::alloc_zeroed(layout) };
-        if ptr.is_null() { None } else { Some(ZeroBuf { ptr, len }) }
-    }
-    fn get(&self, n: usize) -> &[u8] {
-        assert!(n <= self.len);
-        // SAFETY: ptr points to len zero-initialised bytes owned by self and never written.
-        unsafe { std::slice::from_raw_parts(self.ptr, n) }
-    }
-}
-
-impl Drop for ZeroBuf {
-    fn drop(&mut self) {
-        // SAFETY: allocated in new() with this very layout.
-        unsafe { std::alloc::dealloc(self.ptr, std::alloc::Layout::from_size_align(self.len, 4096).unwrap()) }
-    }
 }
 
 /// Context lengths at and around 2^16 .. 2^32: a guard evaluated on a narrowed copy of the length
@@ -276,5 +249,76 @@ fn huge_contexts<S: PS>(ctx: &Ctx, acc: &mut Acc, pk_b: &[u8], sk_b: &[u8]) {
                 break;
             }
         }
+    }
+}
+
+
+/// Forgeries on the degenerate public key (t1 = 0: any z with a small norm verifies once c~ is computed
+/// from mu) that are valid under WRONG models of the message representative for an over-long context:
+/// what an implementation might be left with if it skips, truncates or half-performs the M' assembly
+/// instead of returning false. With a context of more than 255 bytes all of them must be rejected.
+fn mu_model_forgeries<S: PS>(ctx: &Ctx, acc: &mut Acc) {
+    let p = S::p();
+    let mut g = Prng::derive(ctx.seed, &format!("c07-mu-{}", p.name), 0);
+    let rho = g.bytes(32);
+    let pk_b = crate::gen::degenerate_pk(p, &rho);
+    let Ok(Ok(pk)) = guarded(|| S::pk_from(&pk_b)) else { return };
+    let tr = r::h(&[&pk_b], 64);
+    let z = crate::gen::z_with_spike(&mut g, p, 0, 0, 5, 3);
+    let h0 = vec![r::ZERO; p.k];
+    let m = g.bytes(24);
+    let lens: Vec<usize> = if ctx.thorough() { vec![256, 257, 300, 511, 512, 513, 1024, 4096, 65_536, 65_791] } else { vec![256, 257, 511, 512, 1024, 65_536] };
+    for &n in &lens {
+        let c = g.bytes(n);
+        for mode in MODES {
+            let dom = if mode == Mode::Pure { 0u8 } else { 1u8 };
+            let tail: Vec<u8> = if mode == Mode::Pure { m.clone() } else {
+                let mut t = r::oid(mode);
+                t.extend(r::prehash(mode, &m));
+                t
+            };
+            let n8 = (n % 256) as u8;
+            let models: Vec<(&str, Vec<u8>)> = vec![
+                ("mu-all-zero", vec![0u8; 64]),
+                ("mu-all-ff", vec![0xFFu8; 64]),
+                ("mu=H(tr)", r::h(&[&tr], 64)),
+                ("mu=H(tr||tail)", r::h(&[&tr, &tail], 64)),
+                ("mu=H(tr||dom||tail)", r::h(&[&tr, &[dom], &tail], 64)),
+                ("mu=H(tr||dom||0||tail)", r::h(&[&tr, &[dom, 0], &tail], 64)),
+                ("mu=H(tr||dom||len8||tail)", r::h(&[&tr, &[dom, n8], &tail], 64)),
+                ("mu=H(tr||dom||len8||ctx[..len8]||tail)", r::h(&[&tr, &[dom, n8], &c[..n8 as usize], &tail], 64)),
+                ("mu=H(tr||dom||len_le16||ctx||tail)", r::h(&[&tr, &[dom], &(n as u16).to_le_bytes(), &c, &tail], 64)),
+                ("mu=H(tr||ctx||tail)", r::h(&[&tr, &c, &tail], 64)),
+                ("mu=H(tr||M)", r::h(&[&tr, &m], 64)),
+                ("mu=H(M')-without-tr", r::h(&[&[dom, n8], &c, &tail], 64)),
+            ];
+            for (name, mu) in models {
+                acc.eval();
+                let sig = crate::gen::forge_degenerate_mu(p, &rho, &mu, &z, &h0);
+                let replay = || {
+                    let mut v = case_json(S::SET, mode, &pk_b, None, &m, &c, None, Some(&sig));
+                    v["kind"] = json!("verify-diff");
+                    v["class"] = json!(format!("c07-mu-model-{name}"));
+                    v
+                };
+                match guarded(|| S::verify(&pk, &m, &sig, &c, mode)) {
+                    Ok(false) => {
+                        acc.count("mu_model_forgeries_rejected", 1);
+                        acc.nontrivial(digest64(&[&[S::SET as u8], name.as_bytes(), mode.name().as_bytes(), &(n as u64).to_le_bytes()]));
+                    }
+                    Ok(true) => acc.violation(&format!("C07|alias-accepted|{}|{name}|{}", p.name, mode.name()), format!("a signature valid for {name} verifies with the {n}-byte context"), replay()),
+                    Err(pi) => panic_violation(acc, "C07", "verify", "ctxlen-long", &pi, replay()),
+                }
+            }
+        }
+    }
+    // control: the same forgery under the right mu and a 255-byte context is accepted (the construction works)
+    let c = g.bytes(255);
+    let mp = r::format_message(Mode::Pure, &m, &c).unwrap();
+    let mu = r::h(&[&tr, &mp], 64);
+    let sig = crate::gen::forge_degenerate_mu(p, &rho, &mu, &z, &h0);
+    match guarded(|| S::verify(&pk, &m, &sig, &c, Mode::Pure)) {
+        Ok(true) => acc.count("mu_model_control_accepted", 1),
+        _ => acc.inconclusive(format!("{}: the mu-model forgery construction does not verify under the correct mu (see C02)", p.name)),
     }
 }
